@@ -1,7 +1,7 @@
 (* Properties/C04.v -- every emitted frame is well-formed at every layer.
    This file only pins statements; the proofs are in Proofs/C04.v,
    Proofs/ReplyBytes.v, Proofs/SmbBytes.v and Proofs/C04Closed.v. *)
-From MS Require Import L2 Spec.View Spec.RefDec Spec.C04 Spec.EnvOk
+From MS Require Import L2 Spec.Pending Spec.View Spec.RefDec Spec.C04 Spec.EnvOk
      Proofs.C04 Proofs.ReplyBytes Proofs.C04Closed.
 
 (* For every environment, configuration, clock, table (= whatever happened before)
@@ -12,7 +12,11 @@ From MS Require Import L2 Spec.View Spec.RefDec Spec.C04 Spec.EnvOk
    window on SYN-ACK; UDP length, checksum (IPv4: zero or valid; IPv6: non-zero and
    valid); ICMP length and checksum; hop limit 255 on neighbour advertisements.
    The two hypotheses on the emitted frame (octets, and shorter than 64 KiB) are
-   discharged below for received frames of at most 4096 bytes. *)
+   discharged below for received frames of at most 4096 bytes and connection tables
+   whose per-flow prefix buffers are octet strings of at most PENDING_MAX bytes
+   ([table_pending_ok], Spec/Pending.v: the handler of a TCP flow is given the
+   answered segment joined to the bytes the flow has pending; the invariant holds of
+   the empty table and is kept by every step, see C01). *)
 Theorem C04_wellformed :
   forall E cfg clk tb f tb' r evs,
     cfg_ok cfg = true -> bytes_ok f = true ->
@@ -27,7 +31,7 @@ Proof. exact wellformed. Qed.
 Theorem C04_emitted_bytes_ok :
   forall E cfg clk tb f tb' r evs,
     cfg_ok cfg = true -> env_ok E = true -> env_blobs_ok E = true ->
-    bytes_ok f = true -> bytes_ok (clk_date clk) = true ->
+    bytes_ok f = true -> bytes_ok (clk_date clk) = true -> table_pending_ok tb ->
     reply E cfg clk tb f = Ok (tb', Some r, evs) ->
     bytes_ok r = true.
 Proof. exact emitted_bytes_ok. Qed.
@@ -38,7 +42,7 @@ Proof. exact emitted_bytes_ok. Qed.
 Theorem C04_emitted_short :
   forall E cfg clk tb f tb' r evs,
     cfg_ok cfg = true -> env_small E = true -> bytes_ok f = true ->
-    (length f <= 4096)%nat -> (length (clk_date clk) <= 64)%nat ->
+    (length f <= 4096)%nat -> (length (clk_date clk) <= 64)%nat -> table_pending_ok tb ->
     reply E cfg clk tb f = Ok (tb', Some r, evs) ->
     (length r < 65536)%nat.
 Proof. exact emitted_short. Qed.
@@ -48,7 +52,7 @@ Theorem C04_wellformed_unconditional :
   forall E cfg clk tb f tb' r evs,
     cfg_ok cfg = true -> env_ok E = true -> env_blobs_ok E = true -> env_small E = true ->
     bytes_ok f = true -> (length f <= 4096)%nat ->
-    bytes_ok (clk_date clk) = true -> (length (clk_date clk) <= 64)%nat ->
+    bytes_ok (clk_date clk) = true -> (length (clk_date clk) <= 64)%nat -> table_pending_ok tb ->
     reply E cfg clk tb f = Ok (tb', Some r, evs) ->
     wf_frame r = true.
 Proof. exact wellformed_unconditional. Qed.
